@@ -27,6 +27,7 @@ ASSUMPTIONS = [
     "date-monotone histories (R3); per-holder totals are a report-level figure and are checked by C13",
     "cases that over-spend the whole holding (rejected by the matcher, C02) are skipped and counted",
 ]
+RULE += e2e.RULE_SUFFIX
 
 CFG = gen.GenCfg(min_steps=4, max_steps=18, max_exchanges=3, max_holders=2)
 
